@@ -5,7 +5,7 @@ mod proofs {
     fn up(x: usize, a: usize) -> usize { if a == 0 { x } else { (x + a - 1) / a * a } }
     fn mn(a: usize, b: usize) -> usize { if a < b { a } else { b } }
     fn mx(a: usize, b: usize) -> usize { if a > b { a } else { b } }
-    fn field(ts: Option<proc_macro2::TokenStream>) -> Option<syn::Type> { match ts { Some(proc_macro2::TokenStream::Field(t)) => Some(t), None => None } }
+    fn field(ts: Option<proc_macro2::TokenStream>) -> Option<syn::Type> { match ts { Some(proc_macro2::TokenStream::Field(t)) => Some(t), _ => None } }
 
     /// Rust repr(C) / repr(C, packed(n)) placement of one field (n == 0: not packed)
     fn place(cur: &mut usize, maxa: &mut usize, size: usize, align: usize, n: usize) -> usize {
@@ -32,7 +32,7 @@ mod proofs {
         }
         let csize = up(cur, sa);
         let packed_attr: bool = if P == 1 { kani::any() } else { false };
-        let ctx = BindgenContext { opts: Options { force_explicit_padding: kani::any(), enable_cxx_namespaces: kani::any() }, ptr_size: 8 };
+        let ctx = BindgenContext { opts: Options { force_explicit_padding: kani::any(), enable_cxx_namespaces: kani::any(), flexarray_dst: false }, ptr_size: 8 };
         let comp = CompInfo { union_: false, rust_union: (false, false) };
         let layout = Layout::new(csize, sa);
         let ty = Type { layout: Some(layout), kind: TypeKind::Comp };
@@ -74,7 +74,7 @@ mod proofs {
     fn blob_exact<const A: usize>() {
         let size: usize = kani::any(); kani::assume(size <= 65536);
         let ffi_safe: bool = kani::any();
-        let ctx = BindgenContext { opts: Options { force_explicit_padding: kani::any(), enable_cxx_namespaces: kani::any() }, ptr_size: 8 };
+        let ctx = BindgenContext { opts: Options { force_explicit_padding: kani::any(), enable_cxx_namespaces: kani::any(), flexarray_dst: false }, ptr_size: 8 };
         let t = helpers::blob(&ctx, Layout::new(size, A), ffi_safe);
         let a = if A == 0 { 1 } else { A };
         assert!(t.align <= a, "blob is more aligned than requested");
@@ -93,7 +93,7 @@ mod proofs {
         let o: usize = kani::any(); let size: usize = kani::any();
         kani::assume(o <= 4096 && size >= 1 && size <= 4096);
         kani::assume((o + size) % A == 0);           // the next member is at least A-aligned in C
-        let ctx = BindgenContext { opts: Options { force_explicit_padding: false, enable_cxx_namespaces: kani::any() }, ptr_size: 8 };
+        let ctx = BindgenContext { opts: Options { force_explicit_padding: false, enable_cxx_namespaces: kani::any(), flexarray_dst: false }, ptr_size: 8 };
         let t = helpers::blob(&ctx, Layout::new(size, A), false);
         let start = up(o, t.align);
         assert!(start + t.size == o + size, "padding blob does not end where the next member starts");
@@ -102,7 +102,7 @@ mod proofs {
     #[kani::proof] fn layout_for_size_is_largest_pow2_divisor() {
         let p: usize = kani::any(); let s: usize = kani::any();
         kani::assume(p == 4 || p == 8); kani::assume(s >= 1 && s <= 1 << 20);
-        let ctx = BindgenContext { opts: Options { force_explicit_padding: false, enable_cxx_namespaces: false }, ptr_size: p };
+        let ctx = BindgenContext { opts: Options { force_explicit_padding: false, enable_cxx_namespaces: false, flexarray_dst: false }, ptr_size: p };
         let l = Layout::for_size(&ctx, s);
         assert!(l.size == s);
         assert!(l.align >= 1 && l.align <= p && l.align.is_power_of_two() && s % l.align == 0, "for_size alignment must be a power of two <= pointer size dividing the size");
@@ -123,7 +123,7 @@ mod proofs {
     fn tracker_never_panics_on_arbitrary_layouts() {
         // alignments: 0 (unknown) or a power of two, as every C/C++ compiler reports them; sizes and offsets are unconstrained
         let any_layout = || { let s: usize = kani::any(); let e: u8 = kani::any(); kani::assume(s <= 1 << 32 && e <= 13); Layout::new(s, if e == 13 { 0 } else { 1usize << e }) };
-        let ctx = BindgenContext { opts: Options { force_explicit_padding: kani::any(), enable_cxx_namespaces: kani::any() }, ptr_size: if kani::any() { 4 } else { 8 } };
+        let ctx = BindgenContext { opts: Options { force_explicit_padding: kani::any(), enable_cxx_namespaces: kani::any(), flexarray_dst: false }, ptr_size: if kani::any() { 4 } else { 8 } };
         let comp = CompInfo { union_: kani::any(), rust_union: (kani::any(), kani::any()) };
         let layout = any_layout();
         let ty = Type { layout: if kani::any() { Some(layout) } else { None }, kind: TypeKind::Comp };
